@@ -158,7 +158,7 @@ def run_shard(spec) -> Acc:
 
 
 def plan(tier, seed):
-    n = 30 if tier == "quick" else 700
+    n = 40 if tier == "quick" else 700
     specs = [{"shard": i, "n": n, "max_len": 8 if tier == "quick" else 14} for i in range(14)]
     runs = 20000 if tier == "quick" else 2500000
     specs += [{"part": "atheris_diff", "shard": 200 + i, "runs": runs, "wall": 200 if tier == "quick" else 1500} for i in range(2)]
